@@ -1,11 +1,13 @@
 SPECIFICATION Spec
 CONSTANTS
   Rule = "max"
-  Families = {"geo", "rev", "gap", "phot", "two"}
+  Families = {"geo", "rev", "gap", "phot", "two", "ovl"}
   Starts = {7, 30}
   Lens = {3, 5}
   ASet = {3}
   ARef = 2
+  Search = "each"
+  OvlN = 2
   Licensed = TRUE
   Export = TRUE
 INVARIANT LikelihoodOfFullGrid
